@@ -11,7 +11,13 @@ MANIFEST = dict(
          "non-finite floats are the counterexample) and staged_eq (the staged chain through JSON equals one-shot compile given the "
          "round trips). Tied to the code by the translator Gen/Serde (55 types, regenerated each run, every real PL/RQ JSON document "
          "is walked against the extracted shapes) and by running generated sources x 13 targets x format on/off through "
-         "to_pl(from_pl), to_rq(from_rq), the staged chain and compile; real serde_json texts go through the Lean parser/printer.",
+         "to_pl(from_pl), to_rq(from_rq), the staged chain and compile; real serde_json texts go through the Lean parser/printer. "
+         "Source-text layer: directed programs, the corpus, the repository's integration queries, every book example (rejected ones too) "
+         "and generated programs are rewritten (one transform per line, heads, tails with multi-line / raw / escaped / multi-byte literals "
+         "or a lexer / parser / resolver / SQL-stage rejection after all line breaks) and perturbed as text (CRLF, CR, mixed and exotic line "
+         "terminators, end of text, BOM, blanks, tabs, multi-byte comments / identifiers / normal forms, long lines, pairs of these); both "
+         "routes must give the same SQL or the same error (kind, code, reason, hints, span) and - with the staged error composed against the "
+         "submitted text - the same display and location.",
     note="serde and serde_json themselves are modelled, not verified; the model AST is representative (PR Expr without Func/Ty), the "
          "remaining derive types are covered by the generic extracted-shape checks (flatten disjointness, skip=>default) and the "
          "differential run; finite f64 <-> text exactness is ryu/serde_json's (assumed, exercised by the float corpus).",
@@ -484,6 +490,183 @@ def sql_only_floats_differ(a, b):
 
 
 # ------------------------------------------------------------------------------------------------
+# source-text layer: prql_to_pl and compile must read the SAME text.  Bases (directed programs, the corpus above, the
+# repository's integration queries, every ```prql block of the book - the rejected ones too - and generated programs) are
+# rewritten structurally (one transform per line, a head, a tail that adds a text-sensitive literal or makes the program be
+# rejected at the lexer / parser / resolver / SQL stage AFTER all line breaks) and then perturbed as text.
+# ------------------------------------------------------------------------------------------------
+TEXT_BASES = [
+    "from tickets\nderive {\n  reply = \"\"\"Dear customer,\nwe are on it.\"\"\",\n  short = 'a\nb',\n}\nselect {id, reply, short}",
+    "from t\nderive {\n  x = f\"\"\"{a} first\nsecond {b}\n\"\"\",\n  y = s\"\"\"coalesce({a},\n  {b})\"\"\",\n}\nfilter x != 'q'",
+    "from t\nderive {\n  r1 = r\"C:\\dir\\n\",\n  e1 = \"tab\\there\\r\\nnext\\u{e9}\\x41\",\n  q = \"it's\",\n}\nfilter r1 != e1",
+    "#! the module doc\n\n# a comment\nlet f = func x -> x + 1 # trailing comment\n\n#! doc of main\nfrom t # why\n# between\nselect {a, b = f a} # end",
+    "from t\nderive x = 1\n  \\ + 2\n  # comment inside the wrap\n  \\ + a\nfilter x > 1",
+    "prql target:sql.mssql version:\"0.13\"\n\nfrom t\nderive {z = \"\"\"l1\nl2\"\"\"}\ntake 3",
+    "from `t\u00e0ble`\nderive {`gr\u00f6\u00dfe` = '\u00e9\u4e2d\U0001f600', n = \"\"\"\u00fc\n\u00f6\"\"\"}\nfilter `gr\u00f6\u00dfe` != '\u00df'",
+    "let x = (\n  from t\n  filter a > 1\n)\nfrom x\njoin side:left u (==a)\ngroup {a} (\n  aggregate {s = sum b}\n)\nsort {-s}",
+    "from_text format:json \"\"\"[\n  {\"a\": 1, \"b\": \"x\"},\n  {\"a\": 2, \"b\": \"y\"}\n]\"\"\"\nselect {a}",
+    "from_text \"\"\"a,b\n1,2\n3,4\n\"\"\"\nfilter a > 1",
+    "from t\nselect {\n  a,\n  c = case [\n    a > 1 => 'big',\n    true => 'small',\n  ],\n}\nsort {\n  -a,\n}",
+    "from t",
+]
+TEXT_TAILS = [
+    # accepted: literals whose value is the text between the quotes
+    ("ml-string", "derive {zz_m1 = \"\"\"first\nsecond\n\"\"\", zz_m2 = 'x\ny'}"),
+    ("ml-interp", "derive {zz_m3 = f\"\"\"{a}\n{b}\"\"\", zz_m4 = s\"\"\"f({a},\n{b})\"\"\"}"),
+    ("raw-esc", "derive {zz_m5 = r\"raw\\r\\n\", zz_m6 = \"esc\\r\\n\\t\\u{e9}\"}"),
+    ("mb-lit", "derive {zz_m7 = '\u00e9\u4e2d\U0001f600'} # c\u00f6mment\nfilter zz_m7 != '\u00df'"),
+    ("nfc-nfd", "derive {zz_m8 = 'e\u0301' == '\u00e9'}"),
+    ("wrap", "derive {\n  zz_m9 = 1, # one\n  zz_m10 =\n    \\ 2,\n}"),
+    ("long-lit", "derive {zz_m11 = '" + "x" * 5000 + "'}"),
+    # rejected, stage by stage, the offending text after every line break of the base
+    ("err-resolve", "zz_unknown_fn a"),
+    ("err-resolve-hint", "select {zz_a = a}\nfilter zz_missing > 1"),
+    ("err-type", "take 'x'"),
+    ("err-parse", "derive {zz_b = 1 +}"),
+    ("err-lex", "derive {zz_c = 'unterminated}"),
+    ("err-sql", "derive {zz_d = a ~= 'x'}"),           # rejected by rq_to_sql for mssql
+    ("err-int", "derive {zz_e = 9223372036854775808}"),
+    ("err-ml-then", "derive {zz_f = \"\"\"one\ntwo\"\"\"}\nzz_unknown_fn zz_f"),
+    ("err-mb-then", "derive {zz_g = '\u00e9'}\nzz_unknown_fn zz_g"),
+]
+TEXT_HEADS = [
+    ("prql-target", "prql target:sql.mssql\n"),
+    ("prql-version", "prql version:\"0.13\" target:sql.sqlite\n\n"),
+    ("doc", "#! doc comment\n"),
+    ("blank", "\n\n"),
+    ("comment", "# leading comment\n# second line\n\n"),
+]
+
+
+def _eol(sep):
+    return lambda s: s.replace("\n", sep)
+
+
+def _eol_cycle(seps):
+    def f(s):
+        parts = s.split("\n")
+        return parts[0] + "".join(seps[i % len(seps)] + x for i, x in enumerate(parts[1:]))
+    return f
+
+
+def _each_line(pre="", post="", skip_first=False):
+    def f(s):
+        ls = s.split("\n")
+        return "\n".join((x if (skip_first and i == 0) else pre + x + post) for i, x in enumerate(ls))
+    return f
+
+
+def _first(old, new):
+    return lambda s: s.replace(old, new, 1)
+
+
+def _then(*fs):
+    def f(s):
+        for g in fs:
+            s = g(s)
+        return s
+    return f
+
+
+_IDENT_MB = lambda s: re.sub(r"\bt\b", "t\u00e4_\u8868", re.sub(r"\ba\b", "\u00e4", s))
+_NFD = lambda s: __import__("unicodedata").normalize("NFD", s)
+_MB_PREFIX = lambda s: "# \u00fcn\u00efc\u00f6d\u00e9 \u4e2d\u6587 \U0001f600\U0001f600\n" + s
+_LONG_PREFIX = lambda s: "# " + "long " * 20000 + "\n" + s
+_BOM = lambda s: "\ufeff" + s
+
+TEXT_PERTURBATIONS = [
+    ("identity", lambda s: s),
+    # line terminators
+    ("eol:crlf", _eol("\r\n")), ("eol:cr", _eol("\r")), ("eol:mixed", _eol_cycle(["\r\n", "\n", "\r"])), ("eol:mixed2", _eol_cycle(["\n", "\r\n"])),
+    ("eol:lfcr", _eol("\n\r")), ("eol:crcrlf", _eol("\r\r\n")), ("eol:ls", _eol("\u2028")), ("eol:nel", _eol("\x85")), ("eol:vt", _eol("\x0b")),
+    ("eol:ff", _eol("\x0c")),
+    # end of the text
+    ("end:+lf", lambda s: s + "\n"), ("end:+crlf", lambda s: s + "\r\n"), ("end:+cr", lambda s: s + "\r"), ("end:strip", lambda s: s.rstrip("\n")),
+    ("end:+lf3", lambda s: s + "\n\n\n"), ("end:+blanks", lambda s: s + "   "), ("end:+tab-lf", lambda s: s + "\t\n"),
+    ("end:+comment", lambda s: s.rstrip("\n") + "\n# end"), ("end:+ctrl-z", lambda s: s + "\x1a"), ("end:+nul", lambda s: s + "\x00"),
+    # byte order mark
+    ("bom", _BOM), ("bom-after-line", lambda s: s.replace("\n", "\n\ufeff", 1)),
+    # blanks
+    ("ws:trailing", _each_line(post="  \t")), ("ws:tab-indent", _each_line(pre="\t", skip_first=True)), ("ws:tabs", lambda s: s.replace(" ", "\t")),
+    ("ws:double", lambda s: s.replace(" ", "  ")), ("ws:nbsp", _first(" ", "\u00a0")), ("ws:zwsp", _first(" ", " \u200b")), ("ws:ideographic", _first(" ", "\u3000")),
+    # multi-byte characters: comments, identifiers, normal forms
+    ("mb:prefix-comment", _MB_PREFIX), ("mb:line-comments", _each_line(post=" # \u00e9\U0001f600")), ("mb:idents", _IDENT_MB), ("mb:nfd", _NFD),
+    # long lines
+    ("long:gap", _first(" ", " " * 20000)), ("long:prefix-comment", _LONG_PREFIX), ("long:one-line", lambda s: s.replace("\n", " " * 3000 + "\n", 1)),
+    # pairs: a line-terminator style with each other kind
+    ("crlf+end-crlf", _then(lambda s: s + "\n", _eol("\r\n"))), ("crlf+bom", _then(_eol("\r\n"), _BOM)), ("crlf+ws-trailing", _then(_each_line(post=" \t"), _eol("\r\n"))),
+    ("crlf+tab-indent", _then(_each_line(pre="\t", skip_first=True), _eol("\r\n"))), ("crlf+mb-prefix", _then(_MB_PREFIX, _eol("\r\n"))),
+    ("crlf+mb-line-comments", _then(_each_line(post=" # \u00e9\U0001f600"), _eol("\r\n"))), ("crlf+mb-idents", _then(_IDENT_MB, _eol("\r\n"))),
+    ("crlf+long-prefix", _then(_LONG_PREFIX, _eol("\r\n"))), ("cr+mb-prefix", _then(_MB_PREFIX, _eol("\r"))), ("mixed+ws-trailing", _then(_each_line(post="  "), _eol_cycle(["\r\n", "\r", "\n"]))),
+    ("crlf+strip", _then(lambda s: s.rstrip("\n"), _eol("\r\n"))),
+]
+# perturbations that put a character between tokens which the lexer of the unchanged tree does not accept there (U+FEFF included): they
+# reach rejections only, unless the character lands inside a literal or a comment
+TEXT_OUTSIDE_ALPHABET = {"eol:ls", "eol:nel", "eol:vt", "eol:ff", "end:+ctrl-z", "end:+nul", "bom", "crlf+bom", "bom-after-line", "ws:nbsp", "ws:zwsp",
+                         "ws:ideographic"}
+TEXT_OPTION_SETS = [{"format": False, "signature": False}, {"format": False, "signature": False, "target": "sql.sqlite"},
+                    {"format": True, "signature": False, "target": "sql.mssql"}, {"format": True, "signature": True, "target": "sql.postgres"}]
+
+
+def book_blocks():
+    """every ```prql block of the book, the ones tagged `error` / `no-eval` included (both routes must agree on a rejection too)"""
+    import corpus, glob, os
+    out = []
+    for f in sorted(glob.glob(os.path.join(corpus.REPO, "web/book/src/**/*.md"), recursive=True)):
+        text = open(f, encoding="utf-8").read()
+        for i, m in enumerate(re.finditer(r"```prql([^\n]*)\n(.*?)```", text, re.S)):
+            out.append((f"book:{os.path.relpath(f, corpus.REPO)}#{i}", m.group(2)))
+    return out
+
+
+def one_per_line(s):
+    """the pipeline written one transform per line (inside parentheses a line break is a pipe as well)"""
+    return s.replace(" | ", "\n")
+
+
+def text_variants(i, name, src, full):
+    """structural rewrites of one base: (label, text).  full = every tail and head, else a rotating choice"""
+    lines = one_per_line(src).rstrip("\n")
+    out = [("as-is", src)]
+    if lines != src:
+        out.append(("lines", lines))
+    T, H = len(TEXT_TAILS), len(TEXT_HEADS)
+    tails = range(T) if full else sorted({i % T, (5 * i + 7) % T})
+    for k in tails:
+        out.append(("lines+tail:" + TEXT_TAILS[k][0], lines + "\n" + TEXT_TAILS[k][1]))
+    heads = range(H) if full else [i % H]
+    for h in heads:
+        k = (3 * i + h + 1) % T
+        out.append((f"head:{TEXT_HEADS[h][0]}+lines+tail:{TEXT_TAILS[k][0]}", TEXT_HEADS[h][1] + lines + "\n" + TEXT_TAILS[k][1]))
+    return out
+
+
+def rand_text(rng, src):
+    """a generated program, rewritten and perturbed at random places"""
+    s = one_per_line(src) if rng.random() < 0.8 else src
+    label = []
+    if rng.random() < 0.3:
+        h = rng.choice(TEXT_HEADS); s = h[1] + s; label.append("head:" + h[0])
+    for _ in range(rng.choice([0, 1, 1, 2])):
+        t = rng.choice(TEXT_TAILS); s = s + "\n" + t[1]; label.append("tail:" + t[0])
+    # decorate random line ends, then choose a terminator per line break
+    ls = s.split("\n")
+    for j in range(len(ls)):
+        k = rng.random()
+        if k < 0.15:
+            ls[j] += rng.choice([" ", "\t", "  \t ", " # c", " # \u00e9\u4e2d\U0001f600", " #! d"])
+        elif k < 0.22:
+            ls[j] = rng.choice(["\t", "  ", " \t"]) + ls[j]
+    seps = rng.choice([["\r\n"], ["\r\n"], ["\r"], ["\n", "\r\n"], ["\n", "\r\n", "\r"], ["\n", "\r\n", "\r", "\r\n\r\n", "\n\r", "\r\r\n"]])
+    s = ls[0] + "".join(rng.choice(seps) + x for x in ls[1:])
+    label.append("eol:" + "/".join(repr(x)[1:-1] for x in seps))
+    for _ in range(rng.choice([0, 0, 1, 2])):
+        n, f = rng.choice([q for q in TEXT_PERTURBATIONS if not q[0].startswith(("eol:", "crlf+", "cr+", "mixed+", "identity", "long:prefix", "crlf+long"))])
+        s = f(s); label.append(n)
+    return "rand:" + ",".join(label), s
+
+
+# ------------------------------------------------------------------------------------------------
 
 def run(ctx):
     br = vlib.standard_proof_obligations(ctx, ["PrqlModel.Props.C15"], ["Serde"],
@@ -493,7 +676,8 @@ def run(ctx):
     ctx.rule = ("systematic corpus (one source per AST node kind / optional field / literal kind / statement kind / RQ transform kind, "
                 "plus error programs and non-finite floats) and seeded random programs, each x (no target + 12 dialects) x format on/off "
                 "[x signature comment in thorough]; a case = (source, option set) or (document, JSON round trip); non-trivial = the "
-                "source reached the JSON stage (parsed) resp. the document was accepted")
+                "source reached the JSON stage (parsed) resp. the document was accepted; source-text layer: bases x structural rewrites x "
+                "text perturbations (rotating share, seed-independent) + randomly perturbed generated programs, x 4 option sets")
     ctx.assumptions += ["serde / serde_json behave as modelled in Model/SerdeModel.lean (derive semantics of flatten, skip_serializing_if, "
                         "default, externally tagged enums); in particular every FINITE f64 is read back exactly from the text serde_json "
                         "writes (ryu shortest round-trip) - exercised by the float corpus, not proved",
@@ -513,10 +697,43 @@ def run(ctx):
     sigs = [False, True] if ctx.tier == "thorough" else [False]
     option_sets = [{"format": f, "signature": s, **({"target": "sql." + d} if d else {})}
                    for d in [None] + DIALECTS for f in (False, True) for s in sigs]
-    ans = vh_batch([{"op": "staged_full", "prql": p, "options": option_sets, "want_json": True} for p in sources], shards=vlib.NCPU)
+    ans = vh_batch([{"op": "staged_full", "prql": p, "options": option_sets, "want_json": True, "want_display": True} for p in sources], shards=vlib.NCPU,
+                   timeout=3600)      # (a batch cut by the clock on a loaded machine would be reported as a harness failure)
+
+    # ---- source-text layer: the same comparison on rewritten / perturbed text (built here, judged below) ---------------------------------------
+    import corpus
+    quick = ctx.tier == "quick"
+    book = book_blocks()
+    bases = [("directed", "directed:%d" % i, b, True) for i, b in enumerate(TEXT_BASES)]
+    bases += [("corpus", "corpus:%d" % i, b, False) for i, b in enumerate(SYSTEMATIC)]
+    bases += [("itest", "itest:" + n, b, False) for n, b in corpus.integration_queries()]
+    bases += [("book", n, b, False) for n, b in book]
+    layer, seen = [], set()                                     # (tag, text)
+    nP = len(TEXT_PERTURBATIONS)
+    for i, (kind, name, src, full) in enumerate(bases):
+        for v, (vl, vt) in enumerate(text_variants(i, name, src, full)):
+            for j, (pn, pf) in enumerate(TEXT_PERTURBATIONS):
+                # a rotating share of the perturbations per (base, rewrite): every perturbation still meets every tail, every head and
+                # every directed base several times on every run.  quick: 1/4 directed, 1/15 corpora; thorough: all directed, 1/3 corpora
+                # (moduli coprime to the number of tails, so that a perturbation is not tied to one tail)
+                if (i + v + j) % ((4 if full else 15) if quick else (1 if full else 3)):
+                    continue
+                t = pf(vt)
+                if (t != vt or pn == "identity") and t not in seen:
+                    seen.add(t)
+                    layer.append(({"base": name, "rewrite": vl, "perturbation": pn}, t))
+    n_det = len(layer)
+    for n in range(300 if quick else 3000):                     # random second
+        lab, t = rand_text(ctx.rng, rand_program(ctx.rng) if n % 4 else ctx.rng.choice(bases)[2])
+        layer.append(({"base": "generated" if n % 4 else "corpus", "rewrite": lab, "perturbation": "random"}, t))
+    import time
+    t0 = time.time()
+    lans = vh_batch([{"op": "staged_full", "prql": t, "options": TEXT_OPTION_SETS, "want_json": True, "want_display": True} for _, t in layer], shards=vlib.NCPU,
+                    timeout=3600)
+    t_layer_vh = time.time() - t0
 
     # which float literals of the corpus does serde_json not read back exactly?  (asked of serde_json itself)
-    toks = sorted({m for a in ans if isinstance(a.get("pl_json"), str) for m in FLOAT_TOKEN.findall(a["pl_json"])})
+    toks = sorted({m for a in ans + lans if isinstance(a.get("pl_json"), str) for m in FLOAT_TOKEN.findall(a["pl_json"])})
     frt = vh_batch([{"op": "f64_rt", "texts": toks}])[0].get("results", []) if toks else []
     inexact = {r["text"] for r in frt if r.get("finite") and not r.get("exact")}
     ctx.count("float literals: read back exactly by serde_json", sum(1 for r in frt if r.get("exact")))
@@ -537,11 +754,15 @@ def run(ctx):
             unk[bucket] += 1
         ctx.oracle_failure(fid, what, replay_obj)
     stage_counts = {}
-    for p, a in zip(sources, ans):
+
+    def judge(p, a, option_sets, main=True, tag=None):
+        """one source through both routes: every stage outcome, SQL text, error (kind, code, reason, hints, span) and - for a
+        rejected source - the display / location a caller gets by composing the staged error against the text it submitted"""
+        extra = {"text_layer": tag} if tag else {}
         if "panic" in a or "crash" in a or "garbled" in a:
             ctx.case(("src", p), False)
-            ctx.oracle_failure(None, f"harness failure on {p!r}: {str(a)[:200]}", {"op": "staged_full", "prql": p, "observed": a})
-            continue
+            ctx.oracle_failure(None, f"harness failure on {p!r}: {str(a)[:200]}", {"op": "staged_full", **extra, "prql": p, "observed": a})
+            return
         if a.get("stage") == "prql_to_pl":
             # no PL: one-shot must report the same error (or die the same way) under every option set
             ctx.count("source: parse error")
@@ -554,14 +775,23 @@ def run(ctx):
                     same = canon(one).get("errors") == canon(a)["errors"]
                 if not same:
                     fail("staged", None, "prql_to_pl and compile report different parse errors",
-                                       {"op": "staged_full", "prql": p, "options": o, "staged": a["errors"], "oneshot": one})
-            continue
+                                       {"op": "staged_full", **extra, "prql": p, "options": o, "staged": a.get("errors", {"panic": a.get("panic_in_prql_to_pl")}), "oneshot": one})
+            # the same error value composed against the same text must show the same display and location
+            comp = a.get("composed") or {}
+            for o, one, od in zip(option_sets, a["oneshot"], a.get("oneshot_disp") or []):
+                if od is not None and comp.get("core") == one.get("errors") and comp.get("disp") != od:
+                    fail("staged", None, "a prql_to_pl error composed against the source shows a different display / location than compile",
+                         {"op": "staged_full", **extra, "prql": p, "options": o, "staged": comp.get("disp"), "oneshot": od})
+                elif od is not None and "panic" in comp and "errors" in one:
+                    fail("staged", None, "composing the prql_to_pl error against the source panics, compile reports an error",
+                         {"op": "staged_full", **extra, "prql": p, "options": o, "oneshot": od})
+            return
         plj_text = a.get("pl_json")
         plj = json.loads(plj_text) if plj_text else None
-        if plj_text:
+        if plj_text and main:
             docs.append(("pl", plj_text))
             walker.walk(("ref", "pr.ModuleDef"), plj, "pl")
-        if a.get("rq_json"):
+        if a.get("rq_json") and main:
             docs.append(("rq", a["rq_json"]))
             walker.walk(("ref", "rq.RelationalQuery"), json.loads(a["rq_json"]), "rq")
         # to_pl(from_pl x) == x
@@ -569,10 +799,10 @@ def run(ctx):
         if "to_pl_error" in a:
             reason = a["to_pl_error"][0]["reason"] if a["to_pl_error"] else ""
             fail("pl_rt", classify(p, plj, "to_pl", reason), f"to_pl(from_pl(parse {p!r})) fails: {reason}",
-                 {"op": "staged_full", "prql": p, "stage": "to_pl", "reason": reason})
+                 {"op": "staged_full", **extra, "prql": p, "stage": "to_pl", "reason": reason})
         elif not (a.get("pl_eq") and a.get("pl_json_eq")):
             fid = FINDING_FLOAT_ULP if ulp(a) and only_floats_differ(plj_text, a.get("pl_json2")) else None
-            fail("pl_rt", fid, f"PL changes through JSON for {p!r}", {"op": "staged_full", "prql": p, "observed": {k: a.get(k) for k in ("pl_eq", "pl_json_eq", "pl_text_eq")}})
+            fail("pl_rt", fid, f"PL changes through JSON for {p!r}", {"op": "staged_full", **extra, "prql": p, "observed": {k: a.get(k) for k in ("pl_eq", "pl_json_eq", "pl_text_eq")}})
         # to_rq(from_rq y) == y, and the RQ of the re-read PL is the RQ of the PL
         if "rq_eq" in a or "to_rq_error" in a or "rq_outcome_differs" in a or "rq_errors" in a:
             ctx.case(("rq_rt", p))
@@ -589,7 +819,7 @@ def run(ctx):
                 if fid is None and a.get("rq_eq") and a.get("rq_json_eq") and rr.get("reread_result_reached") and rr.get("distinct_from_original_pl", 1) > 1:
                     fid = FINDING_NONDET
                 fail("rq_rt", fid, f"RQ changes through JSON for {p!r}",
-                     {"op": "staged_full", "prql": p, "observed": {k: a.get(k) for k in a if k.startswith("rq") or k.startswith("to_rq")}})
+                     {"op": "staged_full", **extra, "prql": p, "observed": {k: a.get(k) for k in a if k.startswith("rq") or k.startswith("to_rq")}})
         # staged SQL == one-shot SQL (or same error), per option set
         for o, r in zip(option_sets, a.get("per_option", [])):
             key = (p, json.dumps(o, sort_keys=True))
@@ -602,7 +832,7 @@ def run(ctx):
             if di != one:
                 fid = FINDING_NONDET if nondet else FINDING_PANIC if ("panic" in one and "is out of bounds of the source" in one["panic"] and not p.isascii() and "errors" in di) else None
                 fail("direct", fid, "prql_to_pl;pl_to_rq;rq_to_sql (no JSON) differs from compile",
-                                   {"op": "staged_full", "prql": p, "options": o, "direct": di, "oneshot": one})
+                                   {"op": "staged_full", **extra, "prql": p, "options": o, "direct": di, "oneshot": one})
             st_cmp = {k: v for k, v in st.items() if k != "stage"}
             if st_cmp != one:
                 reason = (st.get("errors") or [{}])[0].get("reason", "") if isinstance(st.get("errors"), list) else ""
@@ -615,19 +845,59 @@ def run(ctx):
                     fid = FINDING_NONDET
                 fail("staged", fid,
                      f"staged chain through JSON differs from compile ({st.get('stage', 'sql')}): {reason[:80]}",
-                     {"op": "staged_full", "prql": p, "options": o, "staged": st, "oneshot": one})
-        if len(ctx.samples) < 3 and a.get("per_option") and "sql" in a["per_option"][0]["oneshot"]:
+                     {"op": "staged_full", **extra, "prql": p, "options": o, "staged": st, "oneshot": one})
+            dsp = r.get("display")
+            if dsp and isinstance(dsp.get("staged"), dict) and dsp["staged"].get("core") == dsp["oneshot"]["core"] \
+                    and dsp["staged"].get("disp") != dsp["oneshot"]["disp"]:
+                fail("staged", None, "the staged error composed against the source shows a different display / location than compile",
+                     {"op": "staged_full", **extra, "prql": p, "options": o, "staged": dsp["staged"].get("disp"), "oneshot": dsp["oneshot"]["disp"]})
+            if dsp:
+                stage_counts["rejected source: display / location compared"] = stage_counts.get("rejected source: display / location compared", 0) + 1
+        if main and len(ctx.samples) < 3 and a.get("per_option") and "sql" in a["per_option"][0]["oneshot"]:
             ctx.sample({"prql": p, "pl_json": plj_text[:300], "rq_json": (a.get("rq_json") or "")[:300],
                         "options": option_sets[3], "oneshot": a["per_option"][3]["oneshot"], "staged": a["per_option"][3]["staged"]})
+
+    for p, a in zip(sources, ans):
+        judge(p, a, option_sets)
+
+    # ---- source-text layer: judged like the sources above
+    tl = {}
+    before, bad_main = dict(unk), dict(bad)
+    t0 = time.time()
+    for (tag, t), a in zip(layer, lans):
+        judge(t, a, TEXT_OPTION_SETS, main=False, tag=tag)
+        if a.get("stage") == "prql_to_pl":
+            oc = "rejected by the parser"
+        elif a.get("per_option"):
+            ks = {("sql" if "sql" in r.get("oneshot", {}) else "panic" if "panic" in r.get("oneshot", {}) else "rejected") for r in a["per_option"]}
+            oc = "accepted" if ks == {"sql"} else "rejected for some target" if "sql" in ks else "rejected after parsing" if ks == {"rejected"} else "panic"
+        else:
+            oc = "other"
+        d = tl.setdefault(tag["perturbation"], {})
+        d[oc] = d.get(oc, 0) + 1
+        fam = tag["base"].split(":")[0]
+        ctx.count(f"text layer: {fam} bases: {oc}")
+    ctx.coverage_extra["text_layer_seconds"] = {"harness": round(t_layer_vh, 1), "judging": round(time.time() - t0, 1)}
+    ctx.coverage_extra["text_layer"] = {"deterministic_texts": n_det, "random_texts": len(layer) - n_det, "bases": len(bases),
+                                        "book_blocks": len(book), "outcome_by_perturbation": tl}
+    short = [pn for pn, _ in TEXT_PERTURBATIONS
+             if not (sum(v for k, v in tl.get(pn, {}).items() if k.startswith("rejected")) > 0 and
+                     (pn in TEXT_OUTSIDE_ALPHABET or sum(v for k, v in tl.get(pn, {}).items() if k.startswith("accepted")) > 0))]
+    ctx.obligation("generator coverage: every text perturbation reaches accepted and rejected programs", not short,
+                   "; ".join(f"{pn}: {tl.get(pn)}" for pn in short)[:300])
+    ctx.obligation("oracle: prql_to_pl .. rq_to_sql and compile agree on rewritten / perturbed source text (SQL, error kind, code, reason, "
+                   "hints, span, composed display and location)", unk == before,
+                   f"{len(layer)} texts ({n_det} deterministic) x {len(TEXT_OPTION_SETS)} option sets; {len(TEXT_PERTURBATIONS)} perturbations; "
+                   f"new unexplained differences: { {k: unk[k] - before[k] for k in unk if unk[k] != before[k]} }")
     for k, v in stage_counts.items():
         ctx.count("one-shot outcome: " + k, v)
-    known_note = lambda b: f"; {bad[b] - unk[b]} failing case(s) are the open known finding(s) {sorted(ctx.known_hits)}" if bad[b] - unk[b] else ""
-    ctx.obligation("oracle: to_pl(from_pl x) == x on every parsed source (outside known findings)", unk["pl_rt"] == 0,
-                   f"{len(sources)} sources, {unk['pl_rt']} unexplained failures" + known_note("pl_rt"))
-    ctx.obligation("oracle: to_rq(from_rq y) == y and RQ(reread PL) == RQ(PL)", unk["rq_rt"] == 0, f"{sum(1 for k, _ in docs if k == 'rq')} RQ documents")
-    ctx.obligation("oracle: staged chain through JSON == compile for every option set (outside known findings)", unk["staged"] == 0,
-                   f"{len(option_sets)} option sets, {unk['staged']} unexplained differences" + known_note("staged"))
-    ctx.obligation("oracle: staged functions without JSON == compile", unk["direct"] == 0, "")
+    known_note = lambda b: f"; {bad_main[b] - before[b]} failing case(s) are the open known finding(s) {sorted(ctx.known_hits)}" if bad_main[b] - before[b] else ""
+    ctx.obligation("oracle: to_pl(from_pl x) == x on every parsed source (outside known findings)", before["pl_rt"] == 0,
+                   f"{len(sources)} sources, {before['pl_rt']} unexplained failures" + known_note("pl_rt"))
+    ctx.obligation("oracle: to_rq(from_rq y) == y and RQ(reread PL) == RQ(PL)", before["rq_rt"] == 0, f"{sum(1 for k, _ in docs if k == 'rq')} RQ documents")
+    ctx.obligation("oracle: staged chain through JSON == compile for every option set (outside known findings)", before["staged"] == 0,
+                   f"{len(option_sets)} option sets, {before['staged']} unexplained differences" + known_note("staged"))
+    ctx.obligation("oracle: staged functions without JSON == compile", before["direct"] == 0, "")
 
     # ---- edited documents: optional fields absent / explicitly null -------------------------------------------------
     pl_docs = [json.loads(t) for k, t in docs if k == "pl"]
